@@ -21,8 +21,12 @@ func main() {
 	palsd.RegionEvery = *regions
 	w := vt.Create(*out)
 	rng := vt.Rand(*seed, "pals")
-	for i := 0; i < *n; i++ {
-		palsd.Case(w, rng, i, *maxLen)
+	if os.Args[1] == "selfsweep" {
+		palsd.SelfSweep(w, rng, *n)
+	} else {
+		for i := 0; i < *n; i++ {
+			palsd.Case(w, rng, i, *maxLen)
+		}
 	}
 	w.Close()
 	fmt.Printf("records=%d\n", w.N)
